@@ -10,6 +10,7 @@ package http
 
 import (
 	"bytes"
+	"encoding/base64"
 	"encoding/json"
 	"errors"
 	"fmt"
@@ -190,6 +191,19 @@ var c18AuthVariants = []c18AuthVariant{
 	{"basic-good-all-upper", "Proxy-Authorization: Basic DTPW\r\n", "reject"},
 }
 
+// Passwords containing ':' (RFC 7617 section 2: the user-id and the password are separated by the
+// FIRST colon of the decoded user-pass; the password may itself contain colons, the user-id may
+// not). c18Passwords is what AuthFunc accepts for user "u" (index 0 = "p", what every other part
+// uses); c18Presented are the decoded user-pass strings a client puts behind "Basic ". A request
+// must be served iff the presented user-pass, split at its first colon, is exactly ("u", accepted
+// password); anything else - in particular a password that only STARTS with, or only contains, the
+// accepted one up to a colon - must not open anything.
+// Added after the independently seeded change C18-11 (user-pass split on every colon instead of
+// the first only: AuthFunc is asked about the password truncated at its first colon).
+var c18Passwords = []string{"p", "p:q", "p:", ":p", "p::q"}
+
+var c18Presented = []string{"u:p", "u:p:q", "u:p:", "u::p", "u:p::q", "u:p:q:r", "u:p:x", "u:", ":u:p", "u:q:p"}
+
 type c18Kind struct {
 	Name, Head string // request line + Host header
 	Addr       string // what a served request dials
@@ -247,10 +261,31 @@ type c18Case struct {
 	// EOFLast: the client connection reports io.EOF in the same Read call that returns the last
 	// bytes of the stream (instead of a separate (0, io.EOF) afterwards)
 	EOFLast bool `json:"eof_with_last_bytes,omitempty"`
+	// Presented: when non-empty, the request carries "Proxy-Authorization: Basic base64(Presented)"
+	// instead of the lines of Variant; Pass: index into c18Passwords, the password AuthFunc accepts
+	// for user "u" (colon-in-password part, added after the seeded change C18-11)
+	Presented string `json:"presented_userpass,omitempty"`
+	Pass      int    `json:"accepted_password,omitempty"`
+}
+
+// variant: the Proxy-Authorization lines of the case and what is expected of them.
+func (c *c18Case) variant() c18AuthVariant {
+	if c.Presented == "" {
+		return c18AuthVariants[c.Variant]
+	}
+	v := c18AuthVariant{
+		Name:   fmt.Sprintf("basic(%s)-accepted(u:%s)", c.Presented, c18Passwords[c.Pass]),
+		Lines:  "Proxy-Authorization: Basic " + base64.StdEncoding.EncodeToString([]byte(c.Presented)) + "\r\n",
+		Expect: "reject",
+	}
+	if c.Presented == "u:"+c18Passwords[c.Pass] { // the user-id "u" has no colon: first-colon split
+		v.Expect = "accept"
+	}
+	return v
 }
 
 func (c *c18Case) desc() string {
-	d := c18Kinds[c.Kind].Name + "/" + c18AuthVariants[c.Variant].Name
+	d := c18Kinds[c.Kind].Name + "/" + c.variant().Name
 	if c.Extra != 0 {
 		d += "/" + c18Extras[c.Extra].Name
 	}
@@ -258,7 +293,7 @@ func (c *c18Case) desc() string {
 }
 
 func (c *c18Case) header() []byte {
-	return []byte(c18Kinds[c.Kind].Head + c18AuthVariants[c.Variant].Lines + c18Extras[c.Extra].Lines + "\r\n")
+	return []byte(c18Kinds[c.Kind].Head + c.variant().Lines + c18Extras[c.Extra].Lines + "\r\n")
 }
 
 func (c *c18Case) stream() []byte {
@@ -278,7 +313,7 @@ func c18HTTPRun(c *c18Case) (clause, detail string) {
 }
 
 func c18HTTPRunInner(c *c18Case) (string, string) {
-	k, v := c18Kinds[c.Kind], c18AuthVariants[c.Variant]
+	k, v := c18Kinds[c.Kind], c.variant()
 	hdr := c.header()
 	stream := c.stream()
 	complete := len(stream) >= len(hdr)
@@ -291,13 +326,16 @@ func c18HTTPRunInner(c *c18Case) (string, string) {
 	s := &Server{HyClient: hy, EventLogger: c18Logger{log}, AuthRealm: "c18"}
 	if c.Auth {
 		s.AuthFunc = func(u, p string) bool {
-			ok := u == "u" && p == "p"
+			ok := u == "u" && p == c18Passwords[c.Pass]
 			log.add(c18Ev{Kind: "auth", A: u, B: p, OK: ok})
 			return ok
 		}
 	}
 	if c.Warm {
 		w := &c18Case{Kind: 0, Variant: 1, Body: 0, Trunc: -1, Auth: true}
+		if c.Pass != 0 {
+			w.Presented, w.Pass = "u:"+c18Passwords[c.Pass], c.Pass
+		}
 		s.dispatch(&c18Conn{data: w.stream()})
 		log.mu.Lock()
 		log.ev = nil
@@ -433,7 +471,7 @@ type c18HTTPEnum struct {
 func (x *c18HTTPEnum) one(p *evidence.Part, c *c18Case) {
 	p.Evaluations++
 	clause, detail := c18HTTPRun(c)
-	p.Class(c.Kind, c.Variant, c.Body, c.Trunc >= 0, len(c.Cuts) > 2, len(c.Cuts), c.Zero, c.Auth, c.Extra, c.EOFLast, clause)
+	p.Class(c.Kind, c.Variant, c.Body, c.Trunc >= 0, len(c.Cuts) > 2, len(c.Cuts), c.Zero, c.Auth, c.Extra, c.EOFLast, c.Presented, c.Pass, clause)
 	if p.Evaluations%1009 == 5 {
 		cc := *c
 		cc.Desc = c.desc()
@@ -744,10 +782,86 @@ func c18HTTPEnumerate(sh *evidence.Shard) {
 		p4.Exhaustive = false
 		p4.Note("deadline reached inside the eof-with-last-bytes enumeration")
 	}
+
+	// Colons inside the password: every accepted password of c18Passwords x every presented
+	// user-pass of c18Presented x every request kind, whole stream (cold and warm server, separate
+	// and joined EOF), byte at a time, and 1 cut over the boundary offsets, judged by the same
+	// clauses as above with the expectation of c18Case.variant (served iff the presented user-pass
+	// split at its FIRST colon is the accepted pair).
+	// Added after the independently seeded change C18-11 (parseProxyBasicAuth splits the decoded
+	// user-pass on every colon and keeps the first two parts, so "u:p:word" is accepted as u:p).
+	p5 := sh.Part("http-colon-in-password", "enum")
+	p5.Alphabet = map[string]any{"requests": knames, "accepted_password_for_user_u": c18Passwords, "presented_userpass": c18Presented, "pipelined_body_len": []int{0, 1, 5, 9}, "auth": "AuthFunc accepts only (u, accepted password); also after another connection to the same Server authenticated with it"}
+	if th {
+		p5.Bounds = map[string]any{"bodies": "all", "truncations": "every offset", "cuts": "<=1 over boundary offsets, plus byte-at-a-time", "zero_reads": []bool{false, true}, "eof_with_last_bytes": []bool{false, true}}
+	} else {
+		p5.Bounds = map[string]any{"bodies": "none and the longest", "cuts": "whole stream and byte-at-a-time", "zero_reads": []bool{false, true}, "eof_with_last_bytes": []bool{false, true}}
+	}
+	for ki := range c18Kinds {
+		for pi := range c18Passwords {
+			for _, pr := range c18Presented {
+				for bi := range c18Bodies {
+					if !th && bi != 0 && bi != len(c18Bodies)-1 {
+						continue
+					}
+					base := c18Case{Kind: ki, Body: bi, Trunc: -1, Auth: true, Presented: pr, Pass: pi}
+					for _, el := range []bool{false, true} {
+						for _, warm := range []bool{false, true} {
+							if mine() {
+								cc := base
+								cc.EOFLast, cc.Warm = el, warm
+								x.one(p5, &cc)
+							}
+						}
+					}
+					hdr := base.header()
+					n := len(base.stream())
+					run := func(cuts []int) {
+						for _, z := range []bool{false, true} {
+							if !mine() {
+								continue
+							}
+							cc := base
+							cc.Cuts = append([]int(nil), cuts...)
+							cc.Zero = z
+							x.one(p5, &cc)
+						}
+					}
+					all := make([]int, 0, n)
+					for o := 1; o < n; o++ {
+						all = append(all, o)
+					}
+					run(all)
+					if !th {
+						continue
+					}
+					for _, a := range c18Offsets(hdr, n) {
+						run([]int{a})
+					}
+					if bi == len(c18Bodies)-1 {
+						for l := 0; l < n; l++ {
+							if mine() {
+								cc := base
+								cc.Trunc = l
+								x.one(p5, &cc)
+							}
+						}
+					}
+				}
+				if expired {
+					break
+				}
+			}
+		}
+	}
+	if expired {
+		p5.Exhaustive = false
+		p5.Note("deadline reached inside the colon-in-password enumeration")
+	}
 }
 
 func c18HTTPReplay(part string, raw json.RawMessage) (bool, bool, string) {
-	if part != "http-whole-and-truncated" && part != "http-chunkings" && part != "http-framing-headers" && part != "http-eof-with-last-bytes" {
+	if part != "http-whole-and-truncated" && part != "http-chunkings" && part != "http-framing-headers" && part != "http-eof-with-last-bytes" && part != "http-colon-in-password" {
 		return false, false, ""
 	}
 	var c c18Case
